@@ -133,9 +133,10 @@ def discharge(obls, timeout_s=20, instantiate=False, fallback=True, procs=None):
     return [Verdict(o, _STATUS[r], t, b, reason) for o, (r, t, b, reason) in zip(obls, out)]
 
 
-def model_of(obl, timeout_s=30, instantiate=False):
-    """re-solve a refuted obligation in-process and return the z3 model (or None)"""
-    hyps, goal = list(obl.hyps), obl.goal
+def model_of(obl, timeout_s=30, instantiate=False, extra=None):
+    """re-solve a refuted obligation in-process and return the z3 model (or None); ``extra``: additional constraints that ask for a
+    small counterexample (the caller falls back to the unconstrained query)"""
+    hyps, goal = list(obl.hyps) + list(extra or []), obl.goal
     if instantiate:
         from .inst import instantiate as inst
         hyps, goal = inst(hyps, goal)
